@@ -329,7 +329,7 @@ fn wclasses_all() -> Vec<WClass> {
 
 pub fn run_c04(a: &Args) {
     let kinds = kinds8();
-    let total: u64 = if a.thorough { 60_000 } else { 2_400 };
+    let total: u64 = if a.thorough { 60_000 } else { 8_000 };
     for idx in 0..total {
         if !ctx::mine(idx) {
             continue;
@@ -533,7 +533,7 @@ fn sorted_paths(p: &[Vec<String>]) -> Vec<Vec<String>> {
 pub fn run_c08(a: &Args) {
     let kinds = kinds8();
     let wcl = vec![WClass::Unweighted, WClass::Exact, WClass::Exact, WClass::ExactWide, WClass::Generic, WClass::Generic];
-    let total: u64 = if a.thorough { 12_000 } else { 480 };
+    let total: u64 = if a.thorough { 12_000 } else { 2_400 };
     for idx in 0..total {
         if !ctx::mine(idx) {
             continue;
